@@ -63,7 +63,9 @@ def handle (j : Json) : Json :=
   match explicit, (getArr? j "env").bind (·.mapM pair?), getBool? j "absolute", (getArr? j "files").bind (·.mapM file?),
         getNat? j "depth", (getStr? j "schema").bind schemaOf with
   | some ex, some env, some abs, some files, some depth, some (schema, strict) =>
-    let inp : Input := { known := knownProfiles, explicit := ex, env := env, absolute := abs, files := files,
+    -- "manual": the harness's hand-written `ConfigProfile` (free-form names, dots included)
+    let known := if (getBool? j "manual").getD false then [sBytes "prod", sBytes "prod.eu", sBytes "v1.2"] else knownProfiles
+    let inp : Input := { known := known, explicit := ex, env := env, absolute := abs, files := files,
                          depth := depth, schema := schema, strict := strict }
     match load inp with
     | .ok vs => Json.mkObj [("r", "ok"), ("v", Json.mkObj (vs.map fun (p, v) => (pathStr p, valJson v)))]
